@@ -126,4 +126,55 @@ theorem curve_lipschitz (n : ℕ) (v : ℕ → K) (a b D : K)
         · exact blossom_le a b D ha0 ha1 hb0 hb1 k (n-1-k) 0 (Δ v)
             (fun j hj => (abs_le.mp (hD j (by omega))).2) 0 le_rfl
     _ = n * D := by simp
+
+
+/-- strict positivity through one round -/
+theorem T_pos (t : K) (ht0 : 0 ≤ t) (ht1 : t ≤ 1) (m : ℕ) (u : ℕ → K)
+    (hu : ∀ j ≤ m+1, 0 < u j) : ∀ j ≤ m, 0 < T (1-t) t u j := by
+  intro j hj
+  rw [T_apply]
+  have h1 := hu j (by omega); have h2 := hu (j+1) (by omega)
+  rcases lt_or_eq_of_le ht1 with hlt | heq
+  · have := mul_pos (sub_pos.mpr hlt) h1
+    have := mul_nonneg ht0 h2.le
+    linarith
+  · rw [heq]; simpa using h2
+
+theorem blossom_pos (a b : K) (ha0 : 0 ≤ a) (ha1 : a ≤ 1) (hb0 : 0 ≤ b) (hb1 : b ≤ 1) :
+    ∀ (k l m : ℕ) (u : ℕ → K), (∀ j ≤ m + k + l, 0 < u j) →
+      ∀ j ≤ m, 0 < ((T (1-a) a)^k * (T (1-b) b)^l) u j := by
+  intro k
+  induction k with
+  | zero =>
+    intro l
+    induction l with
+    | zero => intro m u hu j hj; simpa using hu j (by omega)
+    | succ l ih =>
+      intro m u hu j hj
+      rw [pow_zero, one_mul, pow_succ, Module.End.mul_apply]
+      have := ih m (T (1-b) b u) (T_pos b hb0 hb1 (m+0+l) u (by intro j hj; exact hu j (by omega)))
+      simpa using this j hj
+  | succ k ih =>
+    intro l m u hu j hj
+    rw [pow_succ', mul_assoc, Module.End.mul_apply]
+    exact T_pos a ha0 ha1 m _ (fun j hj => ih l (m+1) u (by intro j hj; exact hu j (by omega)) j hj) j hj
+
+/-- C18 (one coordinate of the half-plane argument): if every forward difference of the control
+    values is positive, the coordinate function is strictly increasing on [0,1]; applied to
+    ⟨·,u⟩ this gives: hodograph control points in an open half-plane ⇒ the curve is injective. -/
+theorem strictly_increasing_of_pos_differences (n : ℕ) (hn : 1 ≤ n) (v : ℕ → K) (a b : K)
+    (hb0 : 0 ≤ b) (hab : b < a) (ha1 : a ≤ 1) (hD : ∀ j < n, 0 < Δ v j) :
+    curve n v b < curve n v a := by
+  have ha0 : 0 ≤ a := le_trans hb0 hab.le
+  have hb1 : b ≤ 1 := le_trans hab.le ha1
+  have key := curve_sub n v a b
+  have pos : 0 < ∑ k ∈ range n, (((T (1-a) a)^k * (T (1-b) b)^(n-1-k)) (Δ v)) 0 := by
+    apply Finset.sum_pos
+    · intro k hk
+      have hk' := mem_range.mp hk
+      exact blossom_pos a b ha0 ha1 hb0 hb1 k (n-1-k) 0 (Δ v) (fun j hj => hD j (by omega)) 0 le_rfl
+    · exact ⟨0, mem_range.mpr (by omega)⟩
+  have : 0 < curve n v a - curve n v b := by rw [key]; exact mul_pos (sub_pos.mpr hab) pos
+  linarith
 #print axioms curve_lipschitz
+#print axioms strictly_increasing_of_pos_differences
